@@ -161,15 +161,17 @@ Fixpoint stub_funs (path : list string) (s : stmt) : list (list string * defhdr)
 Definition stub_funs_list (ss : list stmt) : list (list string * defhdr) := flat_map (stub_funs []) ss.
 
 (* classes of the stub in visiting order (class_definitions is keyed by the simple name) *)
-Fixpoint stub_classes (s : stmt) : list (string * stmt) :=
+Definition cdef := (string * list tok * anno * list stmt)%type.
+Definition cdef_name (c : cdef) : string := match c with (n, _, _, _) => n end.
+Fixpoint stub_classes (s : stmt) : list cdef :=
   match s with
-  | Class n _ _ body =>
-      (n, s) :: (fix go (ss : list stmt) := match ss with [] => [] | x :: r => stub_classes x ++ go r end) body
+  | Class n d b body =>
+      (n, d, b, body) :: (fix go (ss : list stmt) := match ss with [] => [] | x :: r => stub_classes x ++ go r end) body
   | Block _ body =>
       (fix go (ss : list stmt) := match ss with [] => [] | x :: r => stub_classes x ++ go r end) body
   | _ => []
   end.
-Definition stub_classes_list (ss : list stmt) : list (string * stmt) := flat_map stub_classes ss.
+Definition stub_classes_list (ss : list stmt) : list cdef := flat_map stub_classes ss.
 
 (* every import request the TypeCollector makes while reading the whole stub *)
 Fixpoint stub_needs (simp : list (string * string)) (s : stmt) : list (string * string) :=
@@ -415,11 +417,12 @@ Fixpoint after_last_from (ss : list stmt) : nat :=
               end
   end.
 Definition insert_at (n : nat) (new ss : list stmt) : list stmt := firstn n ss ++ new ++ skipn n ss.
-Definition resolve_class (simp : list (string * string)) (s : stmt) : stmt :=
-  match s with Class n d b body => Class n d (resolve simp b) body | _ => s end.
+Definition fresh_class (simp : list (string * string)) (seen : list string) (c : cdef) : list stmt :=
+  match c with
+  | (n, d, b, body) => if str_in n seen then [] else [Class n d (resolve simp b) body]   (* bases are dequalified *)
+  end.
 Definition fresh_classes (simp : list (string * string)) (stub src : list stmt) : list stmt :=
-  let seen := classes_in_list src in
-  flat_map (fun ns => if str_in (fst ns) seen then [] else [resolve_class simp (snd ns)]) (stub_classes_list stub).
+  flat_map (fresh_class simp (classes_in_list src)) (stub_classes_list stub).
 
 (* ---------------------------------------------------------------- the modelled fragment *)
 Fixpoint nodup_strs (l : list string) : bool :=
@@ -442,7 +445,7 @@ Definition in_fragment (stub src : list stmt) : bool :=
   let bound := map bound_name items in
   let needs := flat_map (stub_needs simp) stub in
   forallb plain_from stub && forallb no_nested_imports stub
-  && nodup_strs (map fst (stub_classes_list stub))
+  && nodup_strs (map cdef_name (stub_classes_list stub))
   && nodup_strs (map fst simp)
   (* no module the stub imports from (or would import from) is a name bound by a source import *)
   && forallb (fun om => negb (str_in (snd om) bound)) simp
@@ -451,7 +454,7 @@ Definition in_fragment (stub src : list stmt) : bool :=
   && forallb (fun om => forallb (fun it => negb (String.eqb (bound_name it) (fst om))
                                            || String.eqb (i_mod it) (snd om)) items) simp
   (* a stub symbol is not also defined by the stub itself *)
-  && forallb (fun om => negb (str_in (fst om) (map fst (stub_classes_list stub)))) simp.
+  && forallb (fun om => negb (str_in (fst om) (map cdef_name (stub_classes_list stub)))) simp.
 
 Definition mk_env (ow : bool) (stub src : list stmt) : env :=
   mkEnv ow (stub_symbols stub) (stub_funs_list stub) (global_names_list src).
@@ -545,8 +548,20 @@ Definition raw_offer (sh : defhdr) (p : param) : option anno :=
   else stub_param_anno (p_name p) (p_kind p) (d_params sh).
 (* "present": the annotation itself, or its forward-reference quotation *)
 Definition quoted_form (a : anno) : anno := match a with [AName [x]] => [ATok ("'" ++ x ++ "'")] | _ => a end.
-Definition present (a : anno) (res : option anno) : bool :=
-  match res with Some b => anno_eqb a b || anno_eqb (quoted_form a) b | None => false end.
+(* the same name, possibly written with the module it is imported from in the stub (libcst qualifies a name
+   when the source already has `import <module>`) *)
+Definition atom_equiv (simp : list (string * string)) (x y : atom) : bool :=
+  if atom_eq_dec x y then true else
+  match x, y with
+  | AName [n], AName q =>
+      match assoc n simp with
+      | Some m => String.eqb (last q ""%string) n && String.eqb (join_dots (removelast q)) m
+      | None => false
+      end
+  | _, _ => false
+  end.
+Definition present (simp : list (string * string)) (a : anno) (res : option anno) : bool :=
+  match res with Some b => forallb2 (atom_equiv simp) a b || anno_eqb (quoted_form a) b | None => false end.
 (* finding classes of C15 (exact boolean predicates on a position: kind (None = return) and stub annotation) *)
 Definition kf_star_param (k : option pkind) : bool := match k with Some k => star_kind k | None => false end.
 Definition kf_dotted_name (simp : list (string * string)) (k : option pkind) (a : anno) : bool :=
@@ -554,18 +569,18 @@ Definition kf_dotted_name (simp : list (string * string)) (k : option pkind) (a 
   | Some PosOrKw | None => negb (anno_eqb (resolve simp a) a)
   | _ => false
   end.
-Definition complete_pos (excl : option pkind -> anno -> bool) (k : option pkind)
+Definition complete_pos (simp : list (string * string)) (excl : option pkind -> anno -> bool) (k : option pkind)
            (offer cur res : option anno) : bool :=
   match offer, cur with
-  | Some a, None => excl k a || present a res
+  | Some a, None => excl k a || present simp a res
   | _, _ => true
   end.
 Definition complete_hdr (e : env) (excl : option pkind -> anno -> bool) (path : list string) (h h' : defhdr) : bool :=
   match matching e path h with
   | Some sh =>
-      forallb2 (fun p q => complete_pos excl (Some (p_kind p)) (raw_offer sh p) (p_anno p) (p_anno q))
+      forallb2 (fun p q => complete_pos (e_simp e) excl (Some (p_kind p)) (raw_offer sh p) (p_anno p) (p_anno q))
                (d_params h) (d_params h')
-      && complete_pos excl None (d_ret sh) (d_ret h) (d_ret h')
+      && complete_pos (e_simp e) excl None (d_ret sh) (d_ret h) (d_ret h')
   | None => true
   end.
 Definition completeb (e : env) (excl : option pkind -> anno -> bool) (src res : list stmt) : bool :=
